@@ -17,13 +17,34 @@ def main():
         return 2
     p = PROPS[a.prop]
     seed = int(os.environ.get("VERIF_SEED", "0") or 0)
+    rules = list(p["rules"])
+    extra = {}
+    if a.tier == "thorough":
+        # thorough = quick + (1) the same rules on the arc build of the crates that exist in both configurations
+        from .props import arc_variants
+        av = arc_variants(a.prop)
+        rules += av
+        extra["configurations"] = ["rc"] + (["arc"] if av or a.prop == "C19" else [])
     try:
-        return engine.run_property(a.prop, a.tier, p["rules"], level=p.get("level", "other"), clause=p["clause"],
-                                   assumptions=ASSUMPTIONS + p.get("assumptions", []), seed=seed,
-                                   technique=p.get("technique", ""))
+        rc = engine.run_property(a.prop, a.tier, rules, level=p.get("level", "other"), clause=p["clause"],
+                                 assumptions=ASSUMPTIONS + p.get("assumptions", []), seed=seed,
+                                 technique=p.get("technique", ""), extra_cov=extra)
     except RuntimeError as e:
         print(str(e))
         return 2
+    if a.tier == "thorough" and rc == 0 and not os.environ.get("KV_NO_SENSITIVITY"):
+        # (2) sensitivity: every catalogued one-edit mutant of this property's rules, applied to a scratch worktree
+        # outside /repo and /verif, must be reported by the rule it targets (else the check is broken, not the repo)
+        import subprocess
+        r = subprocess.run([os.path.join(os.path.dirname(os.path.dirname(os.path.abspath(__file__))), "selftest.py"),
+                            "--property", a.prop], stdout=subprocess.PIPE, stderr=subprocess.STDOUT, text=True)
+        tail = [l for l in r.stdout.splitlines() if l.startswith(("OK", "FAIL", "SKIP", "selftest"))]
+        for l in tail:
+            print("sensitivity: " + l[:200])
+        if r.returncode != 0:
+            print(f"CHECK-BROKEN property={a.prop} a catalogued mutant was not detected by its rule (see above)")
+            return 2
+    return rc
 
 
 if __name__ == "__main__":
